@@ -23,7 +23,11 @@ def run(ctx):
             if e["property"] == "C07" and e["signature"] not in have:
                 ctx.known.append(e)
     if ctx.replay:
-        chanlib.tie(ctx, "replay", [h, "run", ctx.replay], [drv]); return
+        if chanlib.replay_owner(ctx) == "spmcb":
+            importlib.import_module("spmcb").tie(ctx)
+        else:
+            chanlib.tie(ctx, "replay", [h, "run", ctx.replay], [drv])
+        return
     for w in ("SpmcB_stale_clone.case", "SpmcB_reopened.case"):
         chanlib.witness_tie(ctx, h, drv, w)
     n = 3000 if ctx.quick else 60000
